@@ -12,11 +12,17 @@ from props import index_common as ic
 MODULES = ['FeVerif.Props.C18']
 
 
-def extract(path, out, via_app=False, save_index=True):
-    """Returns ('ok', count|None, output bytes|None, index bytes|None) or ('raise', text)."""
+def extract(path, out, via_app=False, save_index=True, stale=None):
+    """Returns ('ok', count|None, output bytes|None, index bytes|None) or ('raise', text).
+    `stale` = (old output bytes | None, old index bytes | None): files an earlier extraction left at the output paths."""
     for f in (out, os.path.splitext(out)[0] + '.p1i'):
         if os.path.exists(f):
             os.remove(f)
+    if stale is not None:
+        for f, b in ((out, stale[0]), (os.path.splitext(out)[0] + '.p1i', stale[1])):
+            if b is not None:
+                with open(f, 'wb') as fd:
+                    fd.write(b)
     try:
         if via_app:
             from fusion_engine_client.applications import p1_extract
@@ -54,17 +60,44 @@ def fresh_index_bytes(out_path):
     return res, b
 
 
-def one_file(ctx, data, kinds, lines, pending, via_app=False, save_index=True):
+_STALE = {}
+
+
+def stale_files(rng):
+    """Output and index of an earlier extraction (made once per run by the implementation itself, from a small valid log)."""
+    if 'v' not in _STALE:
+        from props import reader_common as rc
+        import random
+        d = ic.tmpdir()
+        src, out = os.path.join(d, 'c18_stale_in.bin'), os.path.join(d, 'c18_stale.p1log')
+        with open(src, 'wb') as f:
+            f.write(b'old' + rc.make_log(random.Random(5), 4, junk=False, t_start=3.0))
+        r = extract(src, out)
+        _STALE['v'] = (r[2], r[3]) if r[0] == 'ok' else (b'\x2e\x31' + bytes(40), None)
+        for f in (src, out, os.path.splitext(out)[0] + '.p1i', os.path.splitext(src)[0] + '.p1i'):
+            if os.path.exists(f):
+                os.remove(f)
+    ob, ib = _STALE['v']
+    return rng.choice([(ob, ib), (ob, None), (b'not a log at all', None), (ob, ib)])
+
+
+def one_file(ctx, data, kinds, lines, pending, via_app=False, save_index=True, stale=None):
     d = ic.tmpdir()
     path = os.path.join(d, 'c18_input.bin')
     with open(path, 'wb') as f:
         f.write(data)
-    for stale in (os.path.join(d, 'c18_input.p1i'),):
-        if os.path.exists(stale):
-            os.remove(stale)
+    for old in (os.path.join(d, "c18_input.p1i"),):
+        if os.path.exists(old):
+            os.remove(old)
     out = os.path.join(d, 'c18_out.p1log')
-    r1 = extract(path, out, via_app, save_index)
+    if stale is not None and not save_index:
+        stale = (stale[0], None)        # the property says nothing about an old index when none is requested
+    r1 = extract(path, out, via_app, save_index, stale)
     replay = {'file': data.hex(), 'tokens': kinds, 'via_app': via_app, 'save_index': save_index}
+    if stale is not None:
+        replay['stale_output'] = None if stale[0] is None else stale[0].hex()
+        replay['stale_index'] = None if stale[1] is None else stale[1].hex()
+        ctx.count('preexisting_output_cases')
     if r1[0] == 'raise':
         ctx.violation('C18/extraction-raised', 'extraction raised %s' % r1[1], replay)
         return
@@ -106,7 +139,7 @@ def judge(ctx, replay, count, ob, ib, fresh, again, mo):
                       ('no file' if ob is None else len(ob), count, 'no file' if mout == 'nofile' else len(mout) // 2, mcount), replay)
         return
     if ob is None:
-        if ib is not None:
+        if ib is not None and ib.hex() != replay.get('stale_index'):
             ctx.violation('C18/index-without-output', 'an index file was written although no message was found', replay)
         ctx.count('message_free_inputs')
         return
@@ -159,14 +192,18 @@ def run(ctx, budget):
     files.append((b'', 'empty2'))
     for r in fv.corpus('C18'):      # regression corpus first
         if 'file' in r:
-            one_file(ctx, bytes.fromhex(r['file']), 'corpus', lines, pending, via_app=False, save_index=r.get('save_index', True))
+            st = None
+            if 'stale_output' in r:
+                st = tuple(None if r.get(k) is None else bytes.fromhex(r[k]) for k in ('stale_output', 'stale_index'))
+            one_file(ctx, bytes.fromhex(r['file']), 'corpus', lines, pending, via_app=False, save_index=r.get('save_index', True), stale=st)
             ctx.count('corpus_cases')
     # rebound block constants on a few
     for i, f in enumerate(files):
         data, kinds = f[0], f[1]
         small = len(f) > 2      # every message <= 200 bytes: the rebound overlap of 256 bytes is a valid size limit
         ic.rebind(*((64, 256) if i % 3 == 0 and small else (80 * 1024, 16 * 1024)))
-        one_file(ctx, data, kinds, lines, pending, via_app=(i % 7 == 3), save_index=(i % 4 != 1 or i % 7 == 3))
+        one_file(ctx, data, kinds, lines, pending, via_app=(i % 7 == 3), save_index=(i % 4 != 1 or i % 7 == 3),
+                 stale=stale_files(rng) if i % 5 == 2 else None)
         for t in kinds if kinds.isalpha() and kinds.isupper() else ['x']:
             ctx.count('token_' + t)
     ic.rebind(80 * 1024, 16 * 1024)
@@ -174,6 +211,10 @@ def run(ctx, budget):
     for f in files:
         if f[1] in ('rtcm', 'empty', 'junk', 'syncs', 'junk2', 'empty2', 'timedN'):
             one_file(ctx, f[0], f[1], lines, pending, via_app=False, save_index=False)
+    # message-free inputs where an earlier extraction left its files at the output path
+    for f in files:
+        if f[1] in ('rtcm', 'empty', 'junk', 'syncs', 'junk2'):
+            one_file(ctx, f[0], f[1], lines, pending, via_app=(f[1] == 'junk'), save_index=(f[1] != 'syncs'), stale=stale_files(rng))
     outs = ctx.driver(lines)
     for p, mo in zip(pending, outs):
         judge(ctx, *p, mo)
@@ -207,8 +248,11 @@ def check(ctx):
 def replay(ctx, path):
     obj = json.load(open(path))
     lines, pending = [], []
-    one_file(ctx, bytes.fromhex(obj['input']['file']), obj['input'].get('tokens', ''), lines, pending, obj['input'].get('via_app', False),
-             obj['input'].get('save_index', True))
+    i = obj['input']
+    stale = None
+    if 'stale_output' in i:
+        stale = tuple(None if i.get(k) is None else bytes.fromhex(i[k]) for k in ('stale_output', 'stale_index'))
+    one_file(ctx, bytes.fromhex(i['file']), i.get('tokens', ''), lines, pending, i.get('via_app', False), i.get('save_index', True), stale)
     outs = ctx.driver(lines)
     for p, mo in zip(pending, outs):
         judge(ctx, *p, mo)
